@@ -31,6 +31,11 @@ func checkC09(e *RunEnv) *CheckResult {
 				steps = append(steps, Run("restore", x).WithTags(t...), Run("restore", "--staged", x).WithTags(t...))
 			}
 			steps = append(steps, Run("restore", "g", "d", "ad/x").WithTags(pathArgTags(a, []string{"g", "d", "ad/x"})...), Run("restore", "--staged", "g", "d", "ad/x").WithTags(pathArgTags(a, []string{"g", "d", "ad/x"})...))
+			// the same path twice (in two spellings) followed by another path: everything named is restored
+			for _, tr := range [][]string{{"n", "./n", "d/x"}, {"d/x", "d", "g"}, {"g", "g", "ad/x"}} {
+				t := pathArgTags(a, tr)
+				steps = append(steps, Run(append([]string{"restore"}, tr...)...).WithTags(t...), Run(append([]string{"restore", "--staged"}, tr...)...).WithTags(t...))
+			}
 			steps = append(steps, Run("restore", "d/x", "--staged").WithTags(pathArgTags(a, []string{"d/x"})...), Run("restore", "d", "--staged").WithTags(pathArgTags(a, []string{"d"})...))
 			for _, pr := range pairs {
 				t := pathArgTags(a, pr)
